@@ -1,6 +1,11 @@
 # sourced by every script: offline Go settings and paths
 export GOFLAGS=-mod=mod GOPROXY=off GOSUMDB=off GOTOOLCHAIN=local
-export VERIF_DIR="${VERIF_DIR:-/verif}"
+# the directory this checkout of the machinery lives in (so that a snapshot of /verif is self-contained)
+_self="$(cd "$(dirname "$0")/.." 2>/dev/null && pwd)"
+if [ -z "${VERIF_DIR:-}" ]; then
+  if [ -f "$_self/MANIFEST.json" ]; then VERIF_DIR="$_self"; else VERIF_DIR=/verif; fi
+fi
+export VERIF_DIR
 export VERIF_REPO="${VERIF_REPO:-/repo}"
 export VERIF_BUILD="${VERIF_BUILD:-$VERIF_DIR/.build}"
 export VERIF_GOFASTA_BIN="$VERIF_BUILD/gofasta"
